@@ -78,12 +78,14 @@ func apiCall(method, path string, q url.Values) (int, []byte) {
 type world struct {
 	streams []*media.Stream
 	hasHls  []bool
+	age     []int          // seconds (of history time) since the last HLS access, for the input distribution only
+	dist    map[string]int // input distribution counters of this history
 }
 
 func newWorld() *world {
 	media.VerifClearRegistry()
 	media.VerifResetIdleTasks()
-	return &world{}
+	return &world{dist: map[string]int{}}
 }
 
 func (w *world) done() {
@@ -133,6 +135,7 @@ func (w *world) exec(tok string) (obs string) {
 		hp := s.Hlsable()
 		has := hp != nil && fmt.Sprint(hp) != "<nil>"
 		w.hasHls = append(w.hasHls, has)
+		w.age = append(w.age, 0)
 		if has != (f[2] == "1") {
 			return "hls-mismatch"
 		}
@@ -196,10 +199,27 @@ func (w *world) exec(tok string) (obs string) {
 			dn, _ := strconv.Atoi(f[2])
 			d = time.Duration(dn) * time.Second
 		}
+		for i, st := range w.streams { // which clause decides this run of the task (distribution only)
+			if st == ts[n].Stream && st.VerifStatus() == media.StreamOK {
+				switch {
+				case st.ConsumerCount() > 0:
+					w.dist["tick-decided-by-attached-consumer"]++
+				case !w.hasHls[i]:
+					w.dist["tick-no-consumer-no-playlist"]++
+				case d == 0:
+					w.dist["tick-no-consumer-period-0"]++
+				case time.Duration(w.age[i])*time.Second >= d:
+					w.dist["tick-decided-by-old-hls-access"]++
+				default:
+					w.dist["tick-decided-by-recent-hls-access"]++
+				}
+			}
+		}
 		return tickOnce(ts[n], d)
 	case "adv": // n seconds pass: every HLS playlist's last access lies n seconds further back
 		n, _ := strconv.Atoi(f[1])
 		for i, st := range w.streams {
+			w.age[i] += n
 			if w.hasHls[i] {
 				if _, pl := st.VerifHls(); pl != nil {
 					pl.VerifAgeLastAccess(time.Duration(n) * time.Second)
@@ -228,6 +248,7 @@ func (w *world) exec(tok string) (obs string) {
 		n, _ := strconv.Atoi(f[1])
 		if s := w.get(f[1]); s != nil && w.hasHls[n] {
 			s.Hlsable().M3u8("")
+			w.age[n] = 0
 		}
 		return "-"
 	case "get":
@@ -436,6 +457,63 @@ func genHistory(r *Rng, n int) []string {
 	return ops
 }
 
+// genIdleHistory: a history about the idle-close decision: one or two streams on a path (with / without HLS
+// playlist), an idle task (posted as GetOrCreate does, or the replaced-task of a displaced stream with
+// consumers), consumers of either kind coming and going, HLS accesses, time passing, and runs of the task
+// with the three periods; lookups and listings in between
+func genIdleHistory(r *Rng) []string {
+	p := basePaths[r.Intn(len(basePaths))]
+	ops := []string{fmt.Sprintf("new:%s:%s", Hx([]byte(spelling(r, p))), B01(r.Chance(70))), "reg:0"}
+	nTask := 0
+	nStream := 1
+	var joined [][3]int // stream, flv, cid
+	seeds := map[int]int{}
+	if r.Chance(35) { // a consumer, then a second stream displaces the first: replaced-task
+		flv := b2i(r.Chance(50))
+		seeds[0]++
+		joined = append(joined, [3]int{0, flv, seeds[0]})
+		ops = append(ops, fmt.Sprintf("join:0:%d", flv), fmt.Sprintf("new:%s:%s", Hx([]byte(spelling(r, p))), B01(r.Chance(70))), "reg:1")
+		nStream, nTask = 2, 1
+	}
+	if nTask == 0 || r.Chance(50) {
+		ops = append(ops, fmt.Sprintf("idle:%d", r.Intn(nStream)))
+		nTask++
+	}
+	for i, n := 0, 4+r.Intn(10); i < n; i++ {
+		switch k := r.Intn(100); {
+		case k < 30:
+			ops = append(ops, fmt.Sprintf("tick:%d:%d", r.Intn(nTask), []int{0, 600, 600, 3600, 3600}[r.Intn(5)]))
+		case k < 50:
+			ops = append(ops, fmt.Sprintf("adv:%d", []int{1000, 1000, 5000}[r.Intn(3)]))
+		case k < 60:
+			ops = append(ops, fmt.Sprintf("touch:%d", r.Intn(nStream)))
+		case k < 72:
+			st, flv := r.Intn(nStream), b2i(r.Chance(50))
+			seeds[st]++
+			joined = append(joined, [3]int{st, flv, seeds[st]})
+			ops = append(ops, fmt.Sprintf("join:%d:%d", st, flv))
+		case k < 84:
+			if len(joined) > 0 {
+				j := r.Intn(len(joined))
+				c := joined[j]
+				joined = append(joined[:j], joined[j+1:]...)
+				ops = append(ops, fmt.Sprintf("leave:%d:%d:%d", c[0], c[1], c[2]))
+			}
+		case k < 92:
+			ops = append(ops, "get:"+Hx([]byte(spelling(r, p))))
+		case k < 96:
+			ops = append(ops, "info:"+Hx([]byte(spelling(r, p))))
+		default:
+			ops = append(ops, "count")
+		}
+	}
+	ops = append(ops, "get:"+Hx([]byte(p)), "info:"+Hx([]byte(p)), "count", "infos:-:10")
+	for i := 0; i < nStream; i++ {
+		ops = append(ops, fmt.Sprintf("probe:%d", i))
+	}
+	return ops
+}
+
 // ---- classification of a property failure (implementation ≠ specification) ----
 
 func classify(ops []string, impl, spec []string) (int, string) {
@@ -623,7 +701,11 @@ func runC05(c *Ctx) {
 	}
 	// histories
 	for i, n := 0, c.Budget(2500, 25000); i < n; i++ {
-		addHist(genHistory(c.Rng, 4+c.Rng.Intn(30)))
+		if i%6 == 5 {
+			addHist(genIdleHistory(c.Rng))
+		} else {
+			addHist(genHistory(c.Rng, 4+c.Rng.Intn(30)))
+		}
 	}
 	// races: two threads on one path
 	for i, n := 0, c.Budget(120, 600); i < n; i++ {
@@ -665,7 +747,10 @@ func runC05(c *Ctx) {
 				c.Count("not-run-after-a-hanging-operation")
 				continue
 			}
-			impl, stuckAt := runHistory(k.ops)
+			impl, stuckAt, dist := runHistory(k.ops)
+			for dk, dv := range dist {
+				c.CountN(dk, dv)
+			}
 			if stuckAt >= 0 {
 				hung = true
 				c.Find(Finding{Kind: "oracle", Class: "registry-operation-hangs", Case: lines[i], Impl: strings.Join(impl, ";"), Spec: "every registry operation returns",
@@ -756,7 +841,7 @@ const opTimeout = 90 * time.Second
 
 // runHistory runs the ops on the real code in one goroutine; stuckAt >= 0: that op never returned
 // (the goroutine is abandoned, the observations so far are returned)
-func runHistory(ops []string) (impl []string, stuckAt int) {
+func runHistory(ops []string) (impl []string, stuckAt int, dist map[string]int) {
 	var mu sync.Mutex
 	obs := make([]string, 0, len(ops))
 	done := make(chan struct{})
@@ -770,12 +855,15 @@ func runHistory(ops []string) (impl []string, stuckAt int) {
 			mu.Unlock()
 		}
 		w.done()
+		mu.Lock()
+		dist = w.dist
+		mu.Unlock()
 	}()
 	last, lastChange := -1, time.Now()
 	for {
 		select {
 		case <-done:
-			return obs, -1
+			return obs, -1, dist
 		case <-time.After(200 * time.Millisecond):
 		}
 		mu.Lock()
@@ -794,7 +882,7 @@ func runHistory(ops []string) (impl []string, stuckAt int) {
 			if at >= len(ops) {
 				at = len(ops) - 1 // the clean-up after the last op hangs
 			}
-			return out, at
+			return out, at, nil
 		}
 	}
 }
